@@ -51,6 +51,7 @@ type Contract struct {
 	Line      int
 	File      string
 	Opaque    bool
+	Axiom     bool // recursive opaque spec function: also emit the quantified definitional axiom
 	Bounded   bool // no proof attempted: the contract is only evaluated on the real code over a bounded universe
 	Lemma     bool
 }
@@ -118,6 +119,8 @@ func parseContracts(path string, into map[string]*Contract) error {
 			cur.Trusted = true
 		case "opaque":
 			cur.Opaque = true
+		case "axiom":
+			cur.Axiom = true
 		case "bounded":
 			cur.Bounded = true
 		case "lemma":
